@@ -137,6 +137,9 @@ func (ft *fnTrans) callWrites(c *ssa.CallCommon) ([]string, bool) {
 	if isOmKey(key) {
 		return ft.omWrites(key, c), false
 	}
+	if isMsKey(key) {
+		return ft.msWrites(key, c), false
+	}
 	if strings.HasPrefix(key, "sync/atomic.Add") {
 		return ft.rootComps(c.Args[0]), false
 	}
@@ -146,6 +149,21 @@ func (ft *fnTrans) callWrites(c *ssa.CallCommon) ([]string, bool) {
 	if isHigherOrder(key) {
 		if strings.HasPrefix(key, "slices.Sort") {
 			return []string{vc.compElems(c.Args[0].Type().Underlying().(*types.Slice).Elem())}, false
+		}
+		if key == modulePath+"/common/linq.Map" {
+			return []string{compTop, vc.compElems(c.Signature().Results().At(0).Type().Underlying().(*types.Slice).Elem())}, false
+		}
+		if key == modulePath+"/common/linq.First" {
+			el := c.Args[0].Type().Underlying().(*types.Slice).Elem()
+			out := []string{compTop}
+			if st, ok := el.Underlying().(*types.Struct); ok {
+				for i := 0; i < st.NumFields(); i++ {
+					out = append(out, vc.compField(el, i))
+				}
+			} else {
+				out = append(out, vc.compCell(el))
+			}
+			return out, false
 		}
 		return nil, false
 	}
@@ -764,6 +782,11 @@ func (ft *fnTrans) ret(x *ssa.Return, h *Heap, reach string) {
 		site = fmt.Sprintf("@ret%d", ft.retOrdinal(x))
 	}
 	for k, e := range ft.fc.Ensures {
+		if e.Assumed {
+			// "ensures!": an assumption about this function that its callers use; not an obligation of the body
+			vc.assumed["assumed clause of "+shortFuncName(funcKey(ft.fn))+": "+e.Src] = true
+			continue
+		}
 		t, err := env.Bool(e.Expr)
 		if err != nil {
 			panic(specErr{fmt.Sprintf("ensures %q: %v", e.Src, err)})
